@@ -92,6 +92,14 @@ def builders(g):
         return [vx, va], (lambda: X.Retr(La(a))), 'group', g, (lambda X_, a_: L(X_).Retr(La(a_)))
     B['Retr'] = retr
 
+    def jinvp(m):
+        X, vx = mk_group(m, 'x', 1)
+        p, vp = mk_alg(m, 'p', 7)
+        t, q, s = parts(g, vx.vars)
+        m.ctx.assume += [q[3] > z3.RealVal('1/10'), T.dot(q[:3], q[:3]) > z3.RealVal('1/100')]       # away from the zero rotation and from pi
+        return [vx, vp], (lambda: X.Jinvp(La(p)).tensor()), 'vec', None, (lambda X_, p_: L(X_).Jinvp(La(p_)).tensor())
+    B['Jinvp'] = jinvp
+
     # depth-2/3 compositions (conventions compose)
     def comp1(m):
         X, vx = mk_group(m, 'x', 1)
@@ -134,7 +142,7 @@ def run(H):
                 H.engine_error(nm, e)
     for g in (['SO3'] if H.quick else GROUPS):
         B = builders(g)
-        for opname in ('Exp', 'Log', 'Retr'):
+        for opname in ('Exp', 'Log', 'Retr', 'Jinvp'):
             nm = 'C04/%s/%s' % (g, opname)
             if only and only not in nm:
                 continue
